@@ -1,6 +1,6 @@
 // SPEC LIBRARY: reference bytes of the containers the muxer writes (dinf/dref/url, and through tool/gen_pieces.py stbl, minf,
 // mdia, trak): a container is its header followed by its children in the order of ISO/IEC 14496-12 (8.7.1, 8.5.1, 8.4.4, 8.4.1, 8.3.1).
-// Exactness is conditional on every child having a byte-exact encoder: sample entries hev1 / tx3g, edit lists and metadata do not.
+// Exactness is conditional on every child having a byte-exact encoder: edit lists and metadata do not (the muxer never builds them).
 
 /// DataEntryUrlBox('url ', version, flags): location (NUL terminated) unless the media is in the same file (then nothing follows)
 pub open spec fn url_bytes(b: UrlBox) -> Seq<u8> {
@@ -28,8 +28,10 @@ pub proof fn lemma_stsd_bytes_len(b: StsdBox)
 {
     broadcast use lemma_be_bytes_len;
     if b.avc1 is Some { lemma_avc1_pre(b.avc1->Some_0); }
+    else if b.hev1 is Some { lemma_hev1_pre(b.hev1->Some_0); }
     else if b.vp09 is Some { lemma_vp09_pre(b.vp09->Some_0); lemma_vpcc_pre_len(b.vp09->Some_0.vpcc); }
     else if b.mp4a is Some { lemma_mp4a_pre(b.mp4a->Some_0); }
+    else if b.tx3g is Some { lemma_tx3g_bytes_len(b.tx3g->Some_0); }
 }
 pub proof fn lemma_hdlr_bytes_len(b: HdlrBox)
     requires hdlr_wire(b)
